@@ -58,6 +58,11 @@ def run(rep, repo, tier):
     # inherit those of the one before it - the sequence would then optimise something else at that position
     from .c16 import check_extras_isolation
     check_extras_isolation(rep, repo, tier, 'C04.R3')
+    # R4 (every criterion of the list is performed): the criterion loop is left early only after a failed solve - a criterion whose
+    # rank range is empty performs no solve and must not end the run (solve/check typestate of C14.R1 on two such sequences)
+    from .c14 import typestate_check
+    typestate_check(rep, repo, 'C04.R4', [(False, False, [lpfacts.crit_config('GENEROUS', 1), lpfacts.crit_config('MAXSIZE')]),
+                                          (False, False, [lpfacts.crit_config('GREEDY', 1), lpfacts.crit_config('MINCOST', 0)])])
 
 
 def check_run(rep, r, crit):
